@@ -1,0 +1,15 @@
+//go:build verif
+
+package cache
+
+// Machine-checked contracts (comment-only; compiled to nothing). Checked by /verif/bin/stfsvc.
+
+//@ define rootSpelling(r string) bool = r == "" || r == "." || r == "/" || r == "./"
+
+//@ func NewCacheFilesystem
+//@   property C17
+//@   modifies *
+//@   at call NewBasePathFs#1 assert [base-path-only-for-named-root-memory] !rootSpelling(root) && arg_path == root && arg_source == base
+//@   at call NewBasePathFs#3 assert [base-path-only-for-named-root-dir] !rootSpelling(root) && arg_path == root && arg_source == base
+//@   at call NewBasePathFs#5 assert [base-path-only-for-named-root-none] !rootSpelling(root) && arg_path == root && arg_source == base
+//@   ensures [root-spelling-uses-base-directly] cacheType == "" && rootSpelling(root) && result1 == nil ==> result0 == base
